@@ -219,9 +219,75 @@ def subst(body, frm, to, log, rule='subst', count=1, regex=False):
     return body2
 
 
-def r13_option_combinators(body, log):
-    """`E.map_or(D, |x| F)` and `E.map(|x| F)` where E is a path/call chain without closures."""
-    # handled through explicit `subst` directives for now (each logged under R13)
+def r13_option_combinators(body, log, with_map=False):
+    """R13: inline the closure of `RECV.map_or(D, |x| E)`, `RECV.is_some_and(|x| E)`, `RECV.map(|x| E)`
+    into a `match` (definition of the combinators).  RECV is the expression from the start of the
+    enclosing `let .. =` / statement up to the combinator."""
+    from .rustlex import split_top_level
+    changed = True
+    guard = 0
+    while changed and guard < 50:
+        guard += 1
+        changed = False
+        mb = mask(body)
+        kinds = 'map_or|is_some_and|map' if with_map else 'map_or|is_some_and'
+        for m in re.finditer(r'\.\s*(' + kinds + r')\(', mb):
+            kind = m.group(1)
+            po = m.end() - 1
+            pc = match_close(mb, po)
+            args_text = body[po + 1:pc]
+            args_mask = mb[po + 1:pc]
+            parts = split_top_level(args_mask, args_text, ',')
+            if kind == 'map_or':
+                if len(parts) < 2:
+                    continue
+                default = parts[0].strip()
+                clos = ','.join(parts[1:]).strip().rstrip(',').strip()
+            else:
+                default = None
+                clos = args_text.strip().rstrip(',').strip()
+            cm = re.match(r'\|\s*(&?\s*\w+)\s*\|\s*(.*)$', clos, re.S)
+            if not cm:
+                continue  # not a closure literal (e.g. `.map(f)`) — outside the rule
+            var, cbody = cm.group(1), cm.group(2).strip()
+            if kind == 'map' and not re.match(r'[\w&]', var):
+                continue
+            # receiver: walk back to statement start
+            k = m.start()
+            depth = 0
+            j = k - 1
+            while j >= 0:
+                c = mb[j]
+                if c in ')]}':
+                    depth += 1
+                elif c in '([{':
+                    if depth == 0:
+                        break
+                    depth -= 1
+                elif c in ';' and depth == 0:
+                    break
+                elif c == '=' and depth == 0 and mb[j - 1] not in '=!<>+-*/|&^' and mb[j + 1] != '=':
+                    break
+                elif c == ',' and depth == 0:
+                    break
+                j -= 1
+            recv = body[j + 1:k].strip()
+            if not recv or re.search(r'\breturn\b|\blet\b', recv):
+                rm = re.match(r'(return\s+)(.*)$', recv, re.S)
+                if not rm:
+                    continue
+                recv = rm.group(2)
+            start = body.index(recv, j + 1)
+            if kind == 'map_or':
+                repl = f"match {recv} {{ None => {default}, Some({var}) => {cbody} }}"
+            elif kind == 'is_some_and':
+                repl = f"match {recv} {{ None => false, Some({var}) => {cbody} }}"
+            else:
+                repl = f"match {recv} {{ None => None, Some({var}) => Some({cbody}) }}"
+            body = body[:start] + repl + body[pc + 1:]
+            log.append(f"R13 `{' '.join(recv.split())}.{kind}(..|{var}| ..)` -> match (closure inlined)")
+            changed = True
+            break
     return body
 
 
@@ -425,6 +491,8 @@ def extract_fn(repo, fnspec):
         body = r4_strip_tracing(body, log)
     if 'R8' in rules:
         body = r8_guards(body, log, set(fnspec.get('dropped_fields', [])))
+    if 'R13' in rules or 'R13m' in rules:
+        body = r13_option_combinators(body, log, with_map='R13m' in rules)
     for d in fnspec.get('directives', []):
         k = d['kind']
         if k == 'opaque':
